@@ -5,6 +5,8 @@ partial def loop (h : IO.FS.Stream) (out : IO.FS.Stream) (types : Array Ty) : IO
   let line ← h.getLine
   if line.isEmpty then return ()
   let line := line.trimAscii.toString
+  -- a case during which the harness process died has nothing behind its arrow (and the trailing blank is trimmed away)
+  let line := if line.endsWith " =>" then String.ofList (line.toList.take (line.length - 3)) else line
   let lhs := (line.splitOn " => ").headD ""
   match lhs.splitOn " " with
   | "T" :: id :: _name :: rest =>
